@@ -302,3 +302,51 @@ class BitfieldUpdate(WireContract):
                     for e in (None, 0, 1, 2, -1, 9):
                         for trunc in (False, True):
                             yield ('ww=%d wn=%d [%r:%r] trunc=%s' % (ww, wn, s, e, trunc), mk(ww, wn, s, e, trunc))
+
+
+# ------------------------------------------------------------------------------ signed helpers (C06)
+def sval(x, w):
+    """two's-complement value of the w-bit pattern x (0 <= x < 2**w)"""
+    return H.If(x >= H.pow2(w - 1), x - H.pow2(w), x)
+
+
+@register
+class SignedAdd(_Bin):
+    """signed_add(a, b) on wires: length max(len)+1, and the result read as a signed number is
+    the exact sum of the operands read as signed numbers."""
+    module, qualname, props = 'pyrtl.corecircuits', 'signed_add', ('C06',)
+
+    def post(self, ns):
+        import z3
+        r = ns.result
+        from pyvc.engine import SObj
+        if not isinstance(r, SObj) or r.fields.get('_den') is None:
+            return [('returns a driven wire', z3.BoolVal(False))]
+        bw, den = W.bw_of(r), W.den_of(r)
+        return [('documented length', bw == ns.L + 1),
+                ('value fits the length', H.And(den >= 0, den < H.pow2(bw))),
+                ('signed(result) == signed(a) + signed(b)',
+                 sval(den, ns.L + 1) == sval(ns.va, ns.wa) + sval(ns.vb, ns.wb))]
+
+
+class _SignedCmp(_Bin):
+    OP = None
+
+    def post(self, ns):
+        sa, sb = sval(ns.va, ns.wa), sval(ns.vb, ns.wb)
+        c = {'<': sa < sb, '<=': sa <= sb, '>': sa > sb, '>=': sa >= sb}[self.OP]
+        return _shape(ns, 1, H.If(c, 1, 0))
+
+
+@register
+class SignedLt(_SignedCmp):
+    module, qualname, props, OP = 'pyrtl.corecircuits', 'signed_lt', ('C06',), '<'
+
+
+# signed_le / signed_ge: the `| (a == b)` term needs injectivity of sign extension, which z3 does not
+# find from the ground axioms within the budget - bounded family (C06 ops.binary) covers them
+
+
+@register
+class SignedGt(_SignedCmp):
+    module, qualname, props, OP = 'pyrtl.corecircuits', 'signed_gt', ('C06',), '>'
